@@ -254,3 +254,16 @@ def run(ctx):
         ctx.coverage[k] = ctx.coverage.get(k, 0) + cov1.get(k, 0)
     ctx.coverage["distribution_sync"] = cov1.get("distribution")
     ctx.coverage["attribute_names_pool"] = len(ATTRS or [])
+
+
+_run_inner = run
+
+
+def run(ctx):
+    import engcorr
+    _run_inner(ctx)
+    # how many sends the C01 Spec monitor (Lean `choose` on the implementation's observation) actually judged
+    ctx.coverage["c01_spec_monitor"] = dict(engcorr.C01_MON_STATS)
+    if ctx.coverage.get("evaluations", 0) > 50 and not ctx.replay and engcorr.C01_MON_STATS["judged"] == 0:
+        raise RuntimeError("the C01 Spec monitor judged nothing: it is vacuous")
+
